@@ -2,6 +2,7 @@ import XmppModel.Model.Negotiate
 import XmppModel.Lemmas.Negotiate
 import XmppModel.Lemmas.NegotiateReach
 import XmppModel.Lemmas.NegotiateTerm
+import XmppModel.Lemmas.Component
 import XmppModel.Generated.C04
 /-!
 # C04 — session establishment fails closed under faults
@@ -89,26 +90,143 @@ theorem C04_cancel_never_succeeds {c : Conf} (h : Reach C O st0 script picks c) 
   · exact Or.inr (hh.checked (Or.inr hd) hf)
   · exact Or.inl (hh.doneFirst hd hf)
 
-/-- **after cancellation every I/O operation fails** (the connection's deadline is in the
-past): one step from a cancelled configuration never logs a successful read or write -/
-theorem C04_cancel_io_fails (c : Conf) (hc : O.cancel c.tr = true) (e : Ev)
-    (he : (step C O c).tr = e :: c.tr) :
+/-- **after cancellation every I/O operation fails** (the watcher moves both deadlines of the
+connection into the past): one step from a cancelled configuration never logs a successful
+read or write -/
+theorem C04_cancel_io_fails (c : Conf) (hr : O.dlRd = true) (hw : O.dlWr = true)
+    (hc : O.cancel c.tr = true) (e : Ev) (he : (step C O c).tr = e :: c.tr) :
     e ≠ .hdrOut true ∧ (∀ k, e ≠ .rd k .got) ∧ (∀ st fs, e ≠ .listOut st fs true) ∧ e ≠ .listAbort true := by
   revert he
   step_all
   all_goals intro he
   all_goals first
     | exact absurd he.symm (List.cons_ne_self _ _)
-    | (injection he with h1 h2; subst h1; clear h2; simp_all; done)
+    | (injection he with h1 h2; subst h1; clear h2; simp_all [rdFails, wrFails]; done)
+
+/-! ### blocked in a read, blocked in a write -/
+
+/-- the quiet oracle: nothing fails, nothing is cancelled, callbacks succeed with empty masks -/
+def quiet : Oracle :=
+  { neg := fun _ _ _ => ⟨0, false, false⟩, list := fun _ _ _ => ⟨false, false⟩,
+    parseErr := fun _ _ _ => false, fault := fun _ => false, cancel := fun _ => false,
+    block := fun _ => false, dlRd := true, dlWr := true, layer := fun _ _ => false }
+
+
+
+/-- which deadlines the named setter moves: (read, write) -/
+def dlOfSetter (s : String) : Bool × Bool :=
+  if s == "SetDeadline" then (true, true)
+  else if s == "SetReadDeadline" then (true, false)
+  else if s == "SetWriteDeadline" then (false, true)
+  else (false, false)
+
+/-- deadlines moved by a list of setter calls -/
+def dlOfSetters (l : List String) : Bool × Bool :=
+  l.foldl (fun a s => (a.1 || (dlOfSetter s).1, a.2 || (dlOfSetter s).2)) (false, false)
+
+/-- tie to the source: the calls `conn.Set…Deadline(aLongTimeAgo)` in `setDeadline` of
+session.go (read from its AST), taken together, move the read **and** the write deadline — the
+hypotheses `O.dlRd = true`, `O.dlWr = true` of `C04_cancel_progress` -/
+theorem C04_gen_deadline : ∃ l, Generated.C04.deadlineSetters = some l ∧ dlOfSetters l = (true, true) :=
+  ⟨_, rfl, by decide⟩
+
+/-- **cancellation ends a blocked read and a blocked write alike**: if the context watcher
+moves both deadlines, a call that is blocked — in a read because the peer is silent
+(`wr = false`), or in a write because the peer does not read (`wr = true`) — never stays blocked
+once the context is done: the `hung` point is only reached with a context that was never
+cancelled -/
+theorem C04_cancel_progress {c : Conf} (h : Reach C O st0 script picks c)
+    (hr : O.dlRd = true) (hw : O.dlWr = true) {wr : Bool} (hh : c.pc = .hung wr) :
+    O.cancel c.tr = false := by
+  have := (invU_reach h).hung wr hh
+  cases wr <;> simp_all
+
+/-- one step: a blocked operation whose deadline was moved fails as soon as the context is done:
+the failure event of that operation is logged and the run ends in `fail io` -/
+theorem C04_blocked_unblocks (c : Conf) (op : IoOp) (hpc : c.pc = .blocked op)
+    (hc : O.cancel c.tr = true) (hd : (if op.wr then O.dlWr else O.dlRd) = true) :
+    (step C O c).pc = .fail .io ∧ ∃ e, (step C O c).tr = e :: c.tr ∧ e.faulty = true := by
+  unfold step
+  cases op <;> simp_all [unblock, IoOp.wr, Ev.faulty]
+
+/-- **the write deadline is needed** (negation witness; the seeded change that turned
+`SetDeadline` into `SetReadDeadline`): if the watcher only moves the read deadline, a run whose
+first write blocks and whose context is cancelled while it is blocked never returns -/
+theorem C04_cancel_progress_needs_write_deadline :
+    ∃ (O : Oracle) (c : Conf), O.dlRd = true ∧ Reach [] O 0 [] [] c ∧ c.pc = .hung true ∧ O.cancel c.tr = true :=
+  ⟨{ quiet with block := fun k => k == 0, cancel := fun tr => tr.any (fun e => e == .blocked .hdrOut), dlWr := false },
+   _, rfl, ⟨4, rfl⟩, by decide, by decide⟩
+
+/-- … and the read deadline for a blocked read (a receiver whose peer is silent) -/
+theorem C04_cancel_progress_needs_read_deadline :
+    ∃ (O : Oracle) (c : Conf), O.dlWr = true ∧ Reach [] O bReceived [] [] c ∧ c.pc = .hung false ∧ O.cancel c.tr = true :=
+  ⟨{ quiet with block := fun k => k == 0, cancel := fun tr => tr.any (fun e => e == .blocked .hdrIn), dlRd := false },
+   _, rfl, ⟨4, rfl⟩, by decide, by decide⟩
 
 /-- **no panic**: the machine never reaches the `crash` point -/
 theorem C04_no_panic {c : Conf} (h : Reach C O st0 script picks c) : c.pc ≠ .crash :=
   (invS_reach h).crash
 
-/-- the quiet oracle: nothing fails, nothing is cancelled, callbacks succeed with empty masks -/
-def quiet : Oracle :=
-  { neg := fun _ _ _ => ⟨0, false, false⟩, list := fun _ _ _ => ⟨false, false⟩,
-    parseErr := fun _ _ _ => false, fault := fun _ => false, cancel := fun _ => false }
+/-! ### the component handshake as a front-end (`Model/Component.lean`)
+
+`component.Negotiator` inside `negotiateSession`, for every peer script, fault / blocking
+pattern and cancellation instant. -/
+
+section component
+open XmppModel.Component
+
+/-- **a component session is established only by a clean, acknowledged handshake**: success
+implies that no read or write failed, the context is not done, and the peer's input began with
+(an optional processing instruction and) a stream header carrying a stream id, followed by
+`<handshake/>` -/
+theorem C04_component_success {O : Component.Oracle} {script : List Item} {c : Component.Conf}
+    (h : Component.Reach O script c) (hd : c.pc = .done) :
+    (∀ e ∈ c.tr, e.faulty = false) ∧ O.cancel c.tr = false ∧
+    ∃ rest, script = [.hdr true, .ack] ++ rest ∨ script = [.pi, .hdr true, .ack] ++ rest := by
+  have hi := Component.inv_reach h
+  refine ⟨hi.clean (by rw [hd]; rfl), hi.notCancelled hd, ?_⟩
+  obtain ⟨l, hl, hs⟩ := hi.consumed
+  rw [hd] at hs
+  rcases hs with hs | hs
+  · exact ⟨c.script, Or.inl (by rw [hl, hs])⟩
+  · exact ⟨c.script, Or.inr (by rw [hl, hs])⟩
+
+/-- **fail closed**: once a read or write has failed the handshake has failed (no `Ready`), and
+the failed operation is the last event -/
+theorem C04_component_fail_closed {O : Component.Oracle} {script : List Item} {c : Component.Conf}
+    (h : Component.Reach O script c) {e : Component.Ev} (he : e ∈ c.tr) (hf : e.faulty = true) :
+    (∃ cls, c.pc = .fail cls) ∧ ∃ rest, c.tr = e :: rest := by
+  have hi := Component.inv_reach h
+  have hfail : c.pc.failed = true := by
+    cases hp : c.pc.failed
+    · have := hi.clean hp e he; rw [hf] at this; cases this
+    · rfl
+  constructor
+  · cases hpc : c.pc <;> simp_all [Component.Pc.failed]
+  · rcases hi.shape with hc | ⟨e', rest, ht, _, hrest⟩
+    · have := hc e he; rw [hf] at this; cases this
+    · rw [ht] at he
+      simp only [List.mem_cons] at he
+      rcases he with rfl | he
+      · exact ⟨rest, ht⟩
+      · have := hrest e he; rw [hf] at this; cases this
+
+/-- **cancellation ends a blocked read and a blocked write** of the component handshake too -/
+theorem C04_component_cancel_progress {O : Component.Oracle} {script : List Item}
+    {c : Component.Conf} (h : Component.Reach O script c) (hr : O.dlRd = true) (hw : O.dlWr = true)
+    {wr : Bool} (hh : c.pc = .hung wr) : O.cancel c.tr = false := by
+  have := (Component.inv_reach h).hung wr hh
+  cases wr <;> simp_all
+
+/-- the handshake always ends: after `2·|script| + 6` steps the machine is in a final point -/
+theorem C04_component_returns (O : Component.Oracle) (script : List Item) :
+    (Component.run O (2 * script.length + 6) (Component.init script)).pc.final = true :=
+  Component.run_final O _ _ (by simp [Component.measure, Component.init, Component.rank])
+
+example : (Component.run ⟨fun _ => false, fun _ => false, fun _ => false, true, true⟩ 10
+    (Component.init [.pi, .hdr true, .ack])).pc = .done := by decide
+
+end component
 
 /-! ### non-vacuity -/
 
